@@ -37,7 +37,7 @@ CLSN = 'PrefetchedCourierServer'
 
 
 def run(ctx: Ctx):
-  for r in (r1, r2, r3, r4, r5, r8, r12, r13, r14):
+  for r in (r1, r2, r3, r4, r5, r8, r12, r13, r14, r15):
     ctx.guard(r)
   from mlmverif.props._queue import model as qmodel
   ctx.include('R-C15-6', '"never leaves a request blocked" / "end marker'
@@ -568,10 +568,36 @@ def r8(ctx: Ctx):
   ctx.floor(rule, 3, n)
 
 
+def r15(ctx: Ctx):
+  rule = 'R-C15-15'
+  ctx.rule(rule, '"initialising a new generator or shutting down stops the previous one": _stop_prefetch WAITS for the prefetch'
+           ' thread to end — the join() it calls on the thread has no timeout (or the method re-checks is_alive() in a'
+           ' loop). With a bounded join a generator that is inside one long step is still running when the new generator'
+           ' starts, or when the server loop has finished: two generators execute at once')
+  fi = ctx.repo.func(CS, 'PrefetchedCourierServer._stop_prefetch')
+  joins = [c for c in ast.walk(fi.node) if isinstance(c, ast.Call) and isinstance(c.func, ast.Attribute) and c.func.attr == 'join'
+           and 'thread' in unparse(c.func.value).lower()]
+  if not joins:
+    raise AnalysisError(f'{rule}: _stop_prefetch no longer joins the prefetch thread')
+  for c in joins:
+    bounded = bool(c.args or c.keywords)
+    rechecked = any(isinstance(w, ast.While) and 'is_alive' in unparse(w.test) for w in ast.walk(fi.node))
+    what = '_stop_prefetch: waits for the prefetch thread without a bound'
+    if bounded and not rechecked:
+      ctx.fail(rule, fi, what,
+               f'`{unparse(c)}` gives up after a timeout and _stop_prefetch goes on: the previous generator may still be'
+               ' executing a step while _init_iterator starts the next one (or after shutdown returned)', node=c)
+    else:
+      ctx.ok(rule, fi, what, c)
+  ctx.floor(rule, 1)
+
+
 from mlmverif.selfcheck import B, OK  # noqa: E402
 
 _F = 'chainables/courier_server.py'
 VARIANTS = [
+    B('stop-prefetch-bounded-join', 'chainables/courier_server.py',
+      '            self._enqueue_thread.join()', '            self._enqueue_thread.join(timeout=3)', 'R-C15-15'),
     B('next-batch-does-not-refresh-heartbeat', 'chainables/courier_server.py',
       '    """Get the next batch from the iterator."""\n    self._last_heartbeat = time.time()\n',
       '    """Get the next batch from the iterator."""\n', 'R-C15-13'),
